@@ -323,6 +323,11 @@ def gen(rng, tier):
             sg = L.g_signal(rng, cmd=[2, rng.randrange(1 << 32), [body]], descs=[], pf=0, canonical=True)
             sg[10] = rng.choice([0xFFF, 0x0FF, 0xF00, 0, rng.randrange(4096)])   # tier: neighbours of the length nibble
             sigs.append(sg)
+    # descriptors at the size limit (descriptor_length 250..255): canonical sections whose foreign descriptors come first
+    for dl in (250, 253, 254, 255):
+        for n_after in (0, 1, 2):
+            ds = [[1, rng.choice([0, 1, 0x80, 0xFF]), L.g_bytes(rng, dl)]] + [L.g_seg(rng) for _ in range(n_after)]
+            sigs.append(L.g_signal(rng, descs=ds, pf=0, canonical=True))
     sigs = [L.with_crc(s) for s in sigs if L.fits(s)]
     data = L.serialise(sigs)
     for s, b in zip(sigs, data):
